@@ -6,6 +6,8 @@ pub(crate) fn parse_text_block(bp: &mut BlockParser) {
     bp.event(Event::Start(BlockKind::Text));
 
     while !bp.rest().is_empty() {
+        #[cfg(feature = "verif")]
+        crate::verif::tick("parse_text_block");
         // skip > and leading whitespace
         let _ = bp.consume(T![>]).and_then(|_| bp.consume(T![ws]));
         let start = bp.current_offset();
